@@ -1018,6 +1018,32 @@ def iter_all(it, s):
         out.append(x.f[0])
 
 
+def iter_all_any(it, s):
+    """like iter_all, also for iterators defined by the crate (their own `next` is executed)"""
+    out = []
+    for _ in range(4096):
+        x = iter_next(it, s)
+        if x is None:
+            raise Unsupported("iterate " + str(getattr(s, "ty", s)))
+        if x.idx == 0:
+            return out
+        out.append(x.f[0])
+    raise Unsupported("iterator does not end")
+
+
+@trait_model(r".*", "Iterator", "flat_map")
+def _iter_flat_map(it, args, dty, func):
+    """eager: the closure is applied to every item of the outer iterator and the inner iterators are drained in order
+    (sound for the pure size computations this is used in; the items are handed out by an owned iterator)"""
+    outer = args[0].load() if isinstance(args[0], Ref) else args[0]
+    items = []
+    for x in iter_all_any(it, outer):
+        inner = it.call_closure(args[1], Agg("tuple", [x]), "")
+        inner = inner.load() if isinstance(inner, Ref) else inner
+        items.extend(iter_all_any(it, inner))
+    return Agg("{owned_iter}", [Seq("vec", items, "?"), 0])
+
+
 @trait_model(r".*", "Iterator", "any")
 def _iter_any(it, args, dty, func):
     s = args[0].load() if isinstance(args[0], Ref) else args[0]
@@ -1579,6 +1605,18 @@ def _ord_minmax(it, args, dty, func):
         return min(a, b) if is_min else max(a, b)
     A, B = bv(a, w), bv(b, w)
     return simp(z3.If(z3.ULE(A, B), A, B) if is_min else z3.If(z3.UGE(A, B), A, B))
+
+
+@trait_model(r"^(u8|u16|u32|u64|usize)$", "Ord", "clamp")
+def _ord_clamp(it, args, dty, func):
+    v, lo, hi = args[0], args[1], args[2]
+    if all(isinstance(x, int) for x in (v, lo, hi)):
+        if lo > hi:
+            raise Panic("assert", "assertion failed: min <= max")
+        return min(max(v, lo), hi)
+    w = int_width(strip_generics(dty)) or 64
+    V, LO, HI = bv(v, w), bv(lo, w), bv(hi, w)
+    return simp(z3.If(z3.ULT(V, LO), LO, z3.If(z3.UGT(V, HI), HI, V)))
 
 
 def duration_lt(a, b):
@@ -2646,6 +2684,31 @@ def _chan_len(it, args, dty, func):
 @model("fibre::spsc::BoundedAsyncReceiver::capacity", "fibre::spsc::BoundedAsyncSender::capacity")
 def _chan_cap(it, args, dty, func):
     return _chan(args[0]).cap
+
+
+@model("fibre::mpsc::BoundedReceiver::try_recv_batch_mut", "fibre::mpsc::BoundedAsyncReceiver::try_recv_batch_mut")
+def _chan_try_recv_batch_mut(it, args, dty, func):
+    """appends up to `limit` queued items to the vector; Ok(count), or an error when nothing is queued"""
+    ch = _chan(args[0])
+    vec = args[1].load()
+    limit = concretize(it, args[2], 1 << 20, "batch limit")
+    n = 0
+    while ch.items and n < limit:
+        vec.f.append(ch.items.pop(0))
+        n += 1
+    if n == 0:
+        return err(Enum("fibre::TryRecvError", 1 if ch.closed else 0, "Disconnected" if ch.closed else "Empty", []))
+    return ok(n)
+
+
+@model("std::hint::spin_loop", "core::hint::spin_loop")
+def _spin_loop(it, args, dty, func):
+    return UNIT
+
+
+@model("fibre::mpsc::BoundedReceiver::is_empty")
+def _chan_rx_is_empty(it, args, dty, func):
+    return not _chan(args[0]).items
 
 
 @model("fibre::mpsc::BoundedAsyncSender::is_empty", "fibre::spsc::BoundedAsyncSender::is_empty", "fibre::mpmc_v2::AsyncSender::is_empty",
